@@ -153,9 +153,11 @@ func (k *Keeper) WriteAcknowledgementForForwardedPacket(ctx sdk.Context, packet 
 
 			k.unescrowToken(ctx, coin)
 		}
-	} else {
-		// Funds in the escrow account were burned,
+	} else if !denom.HasPrefix(inFlightPacket.RefundPortId, inFlightPacket.RefundChannelId) {
+		// Funds released from the refund escrow account on arrival were burned,
 		// so on a timeout or acknowledgement error we need to mint the funds back to the escrow account.
+		// (A voucher of the refund channel itself, forwarded straight back over the channel it arrived on,
+		// was minted on arrival and burned on departure: there is nothing to restore.)
 		if err := k.bankKeeper.MintCoins(ctx, transfertypes.ModuleName, newToken); err != nil {
 			return fmt.Errorf("cannot mint coins to the %s module account: %w", transfertypes.ModuleName, err)
 		}
